@@ -191,10 +191,17 @@ class StubSession:
             raise _make_exc(script.raise_exc, "constructor")
 
     def onOpen(self, transport):
+        # raise_in_open: 'early' = before the transport is stored, True/'late' = after storing it,
+        # 'sent' = after storing it AND sending a first message on it (a session that got as far as HELLO)
         self.opens += 1
-        self.transport = transport
         self.events.append(("open",))
-        if self.script.raise_in_open:
+        mode = self.script.raise_in_open
+        if mode == "early":
+            raise _make_exc(self.script.raise_exc, "onOpen, before storing the transport")
+        self.transport = transport
+        if mode == "sent":
+            transport.send(build_message({"k": "call", "id": 1, "tag": "hello-before-raise"}))
+        if mode:
             raise _make_exc(self.script.raise_exc, "onOpen")
         for m in self.script.send_on_open or ():
             transport.send(m)
